@@ -67,8 +67,44 @@ func newSecret(name string, v []byte) secret {
 			}
 		}
 	}
+	// the forms the Lean theorems are about (Krb.C20.window, hex_window): base64 of the secret's aligned core
+	// for each residue of its offset, both alphabets, and hex in both cases, as computed by the model itself
+	if c20Model != nil {
+		ans := c20Model.Ask("b64.cores " + X(v))
+		f := strings.Fields(ans)
+		if len(f) == 9 && f[0] == "ok" {
+			for i, t := range f[1:] {
+				if t == "-" {
+					continue
+				}
+				form := UnX(t)
+				add(form)
+				// tie: the model's rendering is the one Go's encoders give (for the cores: contained in the
+				// window form computed above; for hex: equal)
+				if i < 6 && len(form) >= 6 {
+					found := false
+					for _, g := range s.forms {
+						if bytes.Contains(g, form) && len(g) >= len(form) {
+							found = true
+						}
+					}
+					if !found {
+						c20TieBroken = "the model's base64 core form " + string(form) + " is not part of any form Go's base64 gives for " + X(v)
+					}
+				}
+				if i == 6 && string(form) != hex.EncodeToString(v) {
+					c20TieBroken = "the model's hex rendering differs from encoding/hex for " + X(v)
+				}
+			}
+		} else {
+			c20TieBroken = "b64.cores: " + ans
+		}
+	}
 	return s
 }
+
+var c20Model *Model
+var c20TieBroken string
 
 type leakScan struct {
 	v       *Verdict
@@ -113,6 +149,28 @@ func TestC20(t *testing.T) {
 	v := NewVerdict("C20", "secrets planted per run (password, long-term keys of six etypes in a keytab, session keys, a subkey); every string or byte slice produced by the listed surfaces is searched for every secret raw, in hex (lower, upper, separated), as a decimal byte list and in base64 (standard and URL alphabet, all three alignments): keytab parse errors for every truncation and for corrupted length fields, Keytab.JSON; Credentials.JSON / Marshal; Client.Print and Diagnostics with keytab and with password, client log lines and errors of Login / GetServiceTicket against a KDC simulator incl. failures (wrong password, unknown principal, KDC errors); service.VerifyAPREQ errors and the SPNEGO handler's log lines and response for the whole C01 defect catalogue; JSON of EncryptionKey, cache and session dumps; wire encodings re-marshalled after decryption (Ticket, AP-REQ, AS-REP, TGS-REP, KRB-PRIV, KRB-CRED, ticket sequences in a KDC-REQ-BODY); ccache parse errors. distinct = surface")
 	rng := NewRNG(Seed())
 	ls := &leakScan{v: v}
+	c20Model = m
+	defer func() { c20Model = nil }()
+	// the model's base64 encoder against encoding/base64 on PRNG inputs of every length 0..40 (the theorems are
+	// about the model's encoder)
+	for n := 0; n <= 40; n++ {
+		for _, url := range []bool{false, true} {
+			b := rng.Bytes(n)
+			enc, u := base64.StdEncoding, "0"
+			if url {
+				enc, u = base64.URLEncoding, "1"
+			}
+			want := "ok x" + hex.EncodeToString([]byte(enc.EncodeToString(b)))
+			if n == 0 {
+				want = "ok x"
+			}
+			v.Case(fmt.Sprintf("b64-model/%d/%v", n, url), "base64 model = encoding/base64")
+			if got := m.Ask("b64.enc " + u + " " + X(b)); got != want {
+				v.Violate("correspondence", "c20:b64-model", "the Lean base64 encoder and encoding/base64 disagree", map[string]string{"input": X(b), "model": got, "go": want})
+				break
+			}
+		}
+	}
 	password := fmt.Sprintf("Pw-%x-secret", rng.Bytes(6))
 	ls.secrets = append(ls.secrets, newSecret("password", []byte(password)))
 	// a keytab with fresh random keys
@@ -401,6 +459,9 @@ func TestC20(t *testing.T) {
 				Protect(func() { ls.err("CCache.Unmarshal(corrupted, padded)", cc.Unmarshal(c)) })
 			}
 		}
+	}
+	if c20TieBroken != "" {
+		v.Violate("correspondence", "c20:forms-tie", "the forms searched for are not the ones the theorems speak of: "+c20TieBroken, nil)
 	}
 	v.Note(fmt.Sprintf("outputs searched: %d (%d bytes) for %d secrets in %d forms", ls.outputs, ls.bytes, len(ls.secrets), len(ls.secrets[0].forms)))
 	v.Sample(fmt.Sprintf("outputs=%d bytes=%d secrets=%d", ls.outputs, ls.bytes, len(ls.secrets)))
